@@ -494,10 +494,10 @@ pub fn translate_unit(src: &Path, unit: &Unit, g: &mut Global) -> R<String> {
     }
     out.push_str(&format!(
         "/-\nGENERATED by tools/rs2lean from /repo/src/{} - do not edit.\nRegenerated on every run of a check; the theorems in SmVerif/Tie/ relate these definitions to the\nhand-written model, so they are re-proved against what the Rust source says now.\n-/\nset_option linter.unusedVariables false\nnamespace SmVerif.Gen.{}\nopen SmVerif SmVerif.Rs\n\n",
-        unit.file, unit.module
+        unit.file, ns_of(unit.module)
     ));
     for imp in &unit.imports {
-        out.push_str(&format!("open SmVerif.Gen.{}\n", imp));
+        out.push_str(&format!("open SmVerif.Gen.{}\n", ns_of(imp)));
     }
     for it in &unit.fns {
         match it {
@@ -505,7 +505,7 @@ pub fn translate_unit(src: &Path, unit: &Unit, g: &mut Global) -> R<String> {
                 let (ty, text) = translate_const(&file, name)?;
                 let lean = sanitize(name);
                 out.push_str(&format!("/-- `{}` ({}) -/\ndef {} : {} :=\n  {}\n\n", name, unit.file, lean, lean_ty(&ty), text));
-                g.consts.insert(name.to_string(), (ty, format!("SmVerif.Gen.{}.{}", unit.module, lean)));
+                g.consts.insert(name.to_string(), (ty, format!("SmVerif.Gen.{}.{}", ns_of(unit.module), lean)));
             }
             Item::Fn(_) | Item::NestedFn(..) => {
                 let func = find_fn(&file, it)?;
@@ -797,7 +797,7 @@ pub fn translate_unit(src: &Path, unit: &Unit, g: &mut Global) -> R<String> {
                 // a method named like a field of its struct would collide with the projection in Lean
                 let clash = g.structs.get(*ty).map(|fs| fs.iter().any(|(f, _)| f == name)).unwrap_or(false);
                 let lean_method = if clash { format!("{}_fn", sanitize(name)) } else { sanitize(name) };
-                sig.lean = format!("SmVerif.Gen.{}.{}.{}", unit.module, ty, lean_method);
+                sig.lean = format!("SmVerif.Gen.{}.{}.{}", ns_of(unit.module), ty, lean_method);
                 g.fns.insert(key.clone(), sig);
                 let owner_name = if clash { format!("{}.{}", ty, lean_method) } else { String::new() };
                 let (text, fuel) = translate_fn_named(g, &func, unit.module, Some(if clash { owner_name.as_str() } else { ty }))?;
@@ -808,7 +808,7 @@ pub fn translate_unit(src: &Path, unit: &Unit, g: &mut Global) -> R<String> {
             }
         }
     }
-    out.push_str(&format!("end SmVerif.Gen.{}\n", unit.module));
+    out.push_str(&format!("end SmVerif.Gen.{}\n", ns_of(unit.module)));
     Ok(out)
 }
 
@@ -962,7 +962,7 @@ pub fn signature(_g: &Global, f: &syn::ItemFn, module: &str) -> R<FnSig> {
         syn::ReturnType::Default => Ty::Unit,
         syn::ReturnType::Type(_, t) => rust_ty(t)?,
     };
-    Ok(FnSig { lean: format!("SmVerif.Gen.{}.{}", module, sanitize(&f.sig.ident.to_string())), params, ret, fuel: false, generics, externs: _g.externs.iter().map(|(_, l, _)| l.clone()).collect() })
+    Ok(FnSig { lean: format!("SmVerif.Gen.{}.{}", ns_of(module), sanitize(&f.sig.ident.to_string())), params, ret, fuel: false, generics, externs: _g.externs.iter().map(|(_, l, _)| l.clone()).collect() })
 }
 
 /// Lean return type of a translated function
@@ -1135,6 +1135,15 @@ fn loop_left_early(body: &syn::Block) -> bool {
     let mut v = V(false, 0);
     syn::visit::Visit::visit_block(&mut v, body);
     v.0
+}
+
+/// Lean namespace of a unit: its module name, except for units that continue the namespace of another one (the file is
+/// split only so that a change in one half does not take the ties of the other half with it)
+pub fn ns_of(module: &str) -> &str {
+    match module {
+        "RsSourceMap" => "RsTypes",
+        m => m,
+    }
 }
 
 fn path_last_seg(p: &syn::Path) -> String {
